@@ -2,7 +2,8 @@
 
 CONF = {
     'judge': 'CDI.Judge10.judge10',
-    'trusted': ['POSIX rename(2) rebinding a directory entry atomically and a read of an unmodified inode returning its bytes are the OS assumptions '
+    'trusted': ['fault injection for CreateTemp and rename failures: a writer thread without CAP_DAC_OVERRIDE / CAP_FOWNER in a directory without write permission and in a sticky directory holding somebody else\'s file',
+                'POSIX rename(2) rebinding a directory entry atomically and a read of an unmodified inode returning its bytes are the OS assumptions '
                 'built into the model (AtomicWrite.step); they are exercised, not proved, by the crash-point and concurrent-reader runs',
                 'strace -f output parsing and the projection of system calls on the Spec directory to model operations (harness c10.go): stat/mkdirat on the '
                 'directory path -> MkdirAll, openat for writing -> OpenW, write -> WriteChunk (bytes as transferred), close, rename*/unlink* inside the '
